@@ -401,6 +401,9 @@ class Exec:
         m = re.match(r"^((?:move|copy) \S+) as .* \(PointerCoercion\((?:Unsize|MutToConstPointer)", rv)
         if m:
             return self.operand(env, m.group(1))            # unsizing a reference does not change what it denotes
+        m = re.match(r"^((?:move|copy) \S+) as \*(?:const|mut) .* \(PtrToPtr\)$", rv)
+        if m:
+            return self.operand(env, m.group(1))            # a pointer cast does not change what is pointed to
         m = re.match(r"^((?:move|copy) \S+) as ([iu](?:8|16|32|64|size)) \(IntToInt\)$", rv)
         if m:
             v = self.operand(env, m.group(1))
